@@ -52,6 +52,20 @@ pub enum IdSel {
 pub enum ReadPath {
     Sync,
     Stream,
+    /// `GET /` rendered as NDJSON (falls back to Sync when the case does not run the API)
+    HttpNd,
+    /// `GET /` with `Accept: text/event-stream`
+    HttpSse,
+}
+
+/// How the case's operations reach the store.
+#[derive(Clone, Copy, Debug, PartialEq, Eq, Serialize, Deserialize, Default)]
+pub enum Access {
+    /// `Store` methods through the executor's control channel
+    #[default]
+    Api,
+    /// the HTTP routes of `api::serve` over the store's unix socket
+    Http,
 }
 
 #[derive(Clone, Copy, Debug, PartialEq, Eq, Serialize, Deserialize)]
@@ -83,8 +97,29 @@ pub enum ImportOp {
     Nul { topic: String, pos: PosSel },
 }
 
+/// A syntactically valid HTTP request that the API must refuse with a 4xx
+/// status, leaving the store unchanged (C13).
+#[derive(Clone, Debug, PartialEq, Serialize, Deserialize)]
+pub enum BadReq {
+    BadId { delete: bool, id: String },
+    BadTtl { topic: String, ttl: String },
+    BadContext { topic: String, ctx: String },
+    /// 0 = not base64, 1 = base64 of invalid UTF-8, 2 = base64 of invalid JSON,
+    /// 3 = raw non-ASCII header bytes
+    BadMeta { topic: String, kind: u8, with_body: bool },
+    BadReadQuery { q: String, sse: bool },
+    BadHeadContext { topic: String, ctx: String },
+    BadCasHash { h: String },
+    /// a well-formed hash nobody stored: 404
+    AbsentCas { seed: u8 },
+    EmptyCasPost,
+    BadImport { body: String },
+    UnknownMethod { method: String, path: String },
+}
+
 #[derive(Clone, Debug, PartialEq, Serialize, Deserialize)]
 pub enum Op {
+    Bad(BadReq),
     Append {
         topic: String,
         ctx: CtxSel,
@@ -143,12 +178,100 @@ impl Op {
             Op::Read { path, .. } => match path {
                 ReadPath::Sync => "read-sync",
                 ReadPath::Stream => "read-stream",
+                ReadPath::HttpNd => "read-http",
+                ReadPath::HttpSse => "read-sse",
             },
             Op::Get(_) => "get",
             Op::Head { .. } => "head",
+            Op::Bad(b) => match b {
+                BadReq::BadId { .. } => "bad-id",
+                BadReq::BadTtl { .. } => "bad-ttl",
+                BadReq::BadContext { .. } => "bad-context",
+                BadReq::BadMeta { .. } => "bad-meta",
+                BadReq::BadReadQuery { .. } => "bad-read-query",
+                BadReq::BadHeadContext { .. } => "bad-head-context",
+                BadReq::BadCasHash { .. } => "bad-cas-hash",
+                BadReq::AbsentCas { .. } => "absent-cas",
+                BadReq::EmptyCasPost => "empty-cas-post",
+                BadReq::BadImport { .. } => "bad-import",
+                BadReq::UnknownMethod { .. } => "unknown-method",
+            },
         }
     }
 }
+
+pub const BAD_IDS: &[&str] = &[
+    "x",
+    "zzzzzzzzzzzzzzzzzzzzzzzzz",
+    "03d4sq5pnxqgzj0xgqm4bwh0",
+    "03d4sq5pnxqgzj0xgqm4bwh0y0",
+    "a.b",
+    "head",
+    "cas",
+    "import",
+    "03d4sq5pnxqgzj0xgqm4bwh0_",
+    "a/b",
+];
+pub const BAD_TTLS: &[&str] = &[
+    "head:0",
+    "head:-1",
+    "head:4294967296",
+    "time:-5",
+    "time:1.5",
+    "time:18446744073709551616",
+    "time:",
+    "head:",
+    "Time:5",
+    "HEAD:1",
+    "forever%20",
+    "soon",
+    "head:1x",
+    "",
+    "time:%205",
+    "time:+5x",
+    "head:1:2",
+];
+pub const BAD_CTXS: &[&str] = &[
+    "x",
+    "zzzzzzzzzzzzzzzzzzzzzzzzz",
+    "",
+    "03d4sq5pnxqgzj0xgqm4bwh0",
+    "0",
+];
+pub const BAD_READ_QUERIES: &[&str] = &[
+    "limit=abc",
+    "limit=-1",
+    "last-id=xyz",
+    "context-id=xyz",
+    "follow=maybe",
+    "limit=1.5",
+    "limit=99999999999999999999999",
+    "last-id=",
+    "context-id=zzzzzzzzzzzzzzzzzzzzzzzzz",
+    "follow=-5",
+    "limit=1&limit=x",
+];
+pub const BAD_CAS: &[&str] = &[
+    "sha256-***",
+    "nothash",
+    "sha256-",
+    "",
+    "sha256",
+    "-abc",
+    "sha256-%%%",
+];
+pub const BAD_IMPORTS: &[&str] = &[
+    "",
+    "{",
+    "[]",
+    "{\"topic\":1}",
+    "{\"topic\":\"t\"}",
+    "{\"topic\":\"t\",\"context_id\":\"0000000000000000000000000\",\"id\":\"03d4sq5pnxqgzj0xgqm4bwh0y\",\"hash\":null,\"meta\":null,\"ttl\":\"head:0\"}",
+    "{\"topic\":\"t\",\"context_id\":\"0000000000000000000000000\",\"id\":\"nope\",\"hash\":null,\"meta\":null,\"ttl\":null}",
+    "{\"topic\":\"t\",\"context_id\":\"0000000000000000000000000\",\"id\":\"03d4sq5pnxqgzj0xgqm4bwh0y\",\"hash\":\"???\",\"meta\":null,\"ttl\":null}",
+    "null",
+    "\"frame\"",
+];
 
 #[derive(Clone, Debug, PartialEq, Serialize, Deserialize)]
 pub struct HistCase {
@@ -159,6 +282,8 @@ pub struct HistCase {
     pub eager: bool,
     /// keep a tail follower (all contexts) open during the case
     pub follower: bool,
+    #[serde(default)]
+    pub access: Access,
     pub ops: Vec<Op>,
 }
 
@@ -170,6 +295,8 @@ pub struct HistCase {
 pub enum TopicMode {
     General,
     PrefixFamily,
+    /// URL-unreserved characters only (HTTP paths are not percent-decoded)
+    HttpSafe,
 }
 
 #[derive(Clone, Debug)]
@@ -191,10 +318,12 @@ pub struct Profile {
     pub w_read: u32,
     pub w_get: u32,
     pub w_head: u32,
+    pub w_bad: u32,
     /// probability weight (0..=10) that TTL-bearing appends dominate
     pub ttl_heavy: bool,
     pub small_mem_pct: u32,
     pub bogus_ctx_pct: u32,
+    pub access: Access,
 }
 
 pub fn profile(name: &str) -> Profile {
@@ -216,9 +345,11 @@ pub fn profile(name: &str) -> Profile {
         w_read: 18,
         w_get: 6,
         w_head: 4,
+        w_bad: 0,
         ttl_heavy: false,
         small_mem_pct: 10,
         bogus_ctx_pct: 5,
+        access: Access::Api,
     };
     match name {
         "C05" => Profile {
@@ -260,6 +391,21 @@ pub fn profile(name: &str) -> Profile {
             w_drain: 8,
             w_read: 18,
             w_get: 8,
+            ..base
+        },
+        "C13" => Profile {
+            name: "C13",
+            topics: TopicMode::HttpSafe,
+            max_ops: 25,
+            access: Access::Http,
+            w_bad: 22,
+            w_nul: 2,
+            w_head: 8,
+            w_get: 8,
+            w_import: 8,
+            w_import_reg: 2,
+            bogus_ctx_pct: 12,
+            small_mem_pct: 3,
             ..base
         },
         "C20" => Profile {
@@ -313,6 +459,7 @@ fn topic_of(p: &Profile) -> BoxedStrategy<String> {
     match p.topics {
         TopicMode::General => topic_general(),
         TopicMode::PrefixFamily => topic_prefix_family(),
+        TopicMode::HttpSafe => topic_http_safe(),
     }
 }
 
@@ -384,7 +531,17 @@ pub fn op_strategy(p: &Profile) -> BoxedStrategy<Op> {
     )
         .prop_map(|(frame, delta)| Op::Clock { frame, delta });
     let read = (
-        prop_oneof![Just(ReadPath::Sync), Just(ReadPath::Stream)],
+        if p.access == Access::Http {
+            prop_oneof![
+                1 => Just(ReadPath::Sync),
+                1 => Just(ReadPath::Stream),
+                3 => Just(ReadPath::HttpNd),
+                3 => Just(ReadPath::HttpSse)
+            ]
+            .boxed()
+        } else {
+            prop_oneof![Just(ReadPath::Sync), Just(ReadPath::Stream)].boxed()
+        },
         proptest::option::weighted(0.6, ctx_sel(p)),
         proptest::option::weighted(0.5, id_sel()),
         proptest::option::weighted(0.5, 0u8..12),
@@ -415,12 +572,43 @@ pub fn op_strategy(p: &Profile) -> BoxedStrategy<Op> {
         (p.w_read, read.boxed()),
         (p.w_get, get.boxed()),
         (p.w_head, head.boxed()),
+        (p.w_bad, bad_req(p).prop_map(Op::Bad).boxed()),
     ])
+    .boxed()
+}
+
+pub fn bad_req(_p: &Profile) -> BoxedStrategy<BadReq> {
+    let sel = |v: &'static [&'static str]| proptest::sample::select(v).prop_map(|s| s.to_string());
+    prop_oneof![
+        3 => (any::<bool>(), sel(BAD_IDS)).prop_map(|(delete, id)| BadReq::BadId { delete, id }),
+        3 => (topic_http_safe(), sel(BAD_TTLS)).prop_map(|(topic, ttl)| BadReq::BadTtl { topic, ttl }),
+        2 => (topic_http_safe(), sel(BAD_CTXS)).prop_map(|(topic, ctx)| BadReq::BadContext { topic, ctx }),
+        4 => (topic_http_safe(), 0u8..4, any::<bool>())
+            .prop_map(|(topic, kind, with_body)| BadReq::BadMeta { topic, kind, with_body }),
+        3 => (sel(BAD_READ_QUERIES), any::<bool>()).prop_map(|(q, sse)| BadReq::BadReadQuery { q, sse }),
+        2 => (topic_http_safe(), sel(BAD_CTXS)).prop_map(|(topic, ctx)| BadReq::BadHeadContext { topic, ctx }),
+        2 => sel(BAD_CAS).prop_map(|h| BadReq::BadCasHash { h }),
+        2 => any::<u8>().prop_map(|seed| BadReq::AbsentCas { seed }),
+        1 => Just(BadReq::EmptyCasPost),
+        3 => sel(BAD_IMPORTS).prop_map(|body| BadReq::BadImport { body }),
+        2 => (
+            proptest::sample::select(vec!["PUT", "PATCH", "OPTIONS", "TRACE", "HEAD"]).prop_map(|s| s.to_string()),
+            proptest::sample::select(vec!["/", "/x", "/cas", "/import", "/version", "/head/x"]).prop_map(|s| s.to_string()),
+        )
+            .prop_map(|(method, path)| BadReq::UnknownMethod { method, path }),
+    ]
+    .prop_filter("topic must not be a POST route", move |b| match b {
+        BadReq::BadTtl { topic, .. } | BadReq::BadContext { topic, .. } | BadReq::BadMeta { topic, .. } => {
+            crate::httpx::topic_is_url_safe(topic)
+        }
+        _ => true,
+    })
     .boxed()
 }
 
 pub fn hist_strategy(p: &Profile) -> BoxedStrategy<HistCase> {
     let small = p.small_mem_pct;
+    let access = p.access;
     (
         prop_oneof![(100 - small) => Just(Layout::Plain), small => Just(Layout::SmallMem)],
         0u8..=3,
@@ -428,11 +616,12 @@ pub fn hist_strategy(p: &Profile) -> BoxedStrategy<HistCase> {
         prop_oneof![3 => Just(true), 1 => Just(false)],
         proptest::collection::vec(op_strategy(p), 0..=p.max_ops),
     )
-        .prop_map(|(layout, n_ctx, eager, follower, ops)| HistCase {
+        .prop_map(move |(layout, n_ctx, eager, follower, ops)| HistCase {
             layout,
             n_ctx,
             eager,
             follower,
+            access,
             ops,
         })
         .boxed()
@@ -510,6 +699,13 @@ pub struct Interp {
     pub topics_used: BTreeSet<String>,
     pub reg_changed_since_reopen: bool,
     pub pending_head_append: bool,
+    pub access: Access,
+    pub sock: Option<std::path::PathBuf>,
+    /// status of the last HTTP error response
+    pub last_status: Option<u16>,
+    pub known_hits: Vec<String>,
+    pub http_requests: u64,
+    pub http_errors_seen: u32,
 }
 
 fn infra(msg: impl std::fmt::Display) -> Fail {
@@ -545,6 +741,10 @@ fn bogus_ctx(k: u8) -> u128 {
 
 impl Interp {
     pub fn start(layout: Layout, want_follower: bool) -> Result<Interp, Fail> {
+        Self::start_with(layout, want_follower, Access::Api)
+    }
+
+    pub fn start_with(layout: Layout, want_follower: bool, access: Access) -> Result<Interp, Fail> {
         let dir = StoreDir::new();
         let opts = ExecOpts {
             small_memtable: match layout {
@@ -569,9 +769,92 @@ impl Interp {
             topics_used: BTreeSet::new(),
             reg_changed_since_reopen: false,
             pending_head_append: false,
+            access,
+            sock: None,
+            last_status: None,
+            known_hits: Vec::new(),
+            http_requests: 0,
+            http_errors_seen: 0,
         };
+        it.start_api()?;
         it.start_follower()?;
         Ok(it)
+    }
+
+    /// With HTTP access: start `api::serve` and adopt the `xs.start` frame it appends.
+    fn start_api(&mut self) -> Check {
+        if self.access != Access::Http {
+            return Ok(());
+        }
+        let sock = must("serve_api", self.ex().serve_api())?;
+        self.sock = Some(sock);
+        let all = must("read_sync", self.ex().read_sync(None, None, None))?;
+        for w in all {
+            if !self.model.frames.contains_key(&w.id128()) {
+                if w.topic == "xs.start" && w.ctx128() == ZERO {
+                    let mut spec = FrameSpec {
+                        topic: w.topic.clone(),
+                        ctx: ZERO,
+                        id: Some(w.id128()),
+                        hash: None,
+                        meta: None,
+                        ttl: w.ttl.clone(),
+                    };
+                    spec.hash = w.hash.clone();
+                    self.model.adopt(&w);
+                    self.known.push(Known {
+                        id: w.id128(),
+                        spec,
+                        removed: false,
+                    });
+                    self.topics_used.insert(w.topic.clone());
+                }
+            }
+        }
+        Ok(())
+    }
+
+    fn http<T>(&mut self, out: crate::httpx::HOut<T>) -> Result<XResult<T>, Fail> {
+        use crate::httpx::HOut;
+        self.http_requests += 1;
+        match out {
+            HOut::Ok(v) => Ok(Ok(v)),
+            HOut::Status(s, body) => {
+                self.last_status = Some(s);
+                self.http_errors_seen += 1;
+                Ok(Err(ExecErr::Err(format!("HTTP {s}: {body}"))))
+            }
+            HOut::Broken(m) => Err(Fail::new(Class::Http, m)),
+            HOut::Infra(m) => Err(infra(format!("http connect: {m}"))),
+        }
+    }
+
+    fn use_http(&self, topic: Option<&str>) -> bool {
+        self.access == Access::Http
+            && self.sock.is_some()
+            && topic.map(crate::httpx::topic_is_url_safe).unwrap_or(true)
+    }
+
+    /// a client error must be answered 4xx; 5xx for it is the recorded finding
+    /// `http-500-for-client-error` (or a violation if that is not listed)
+    fn client_error_status(&mut self, what: &str) -> Check {
+        if let Some(s) = self.last_status.take() {
+            if !(400..500).contains(&s) {
+                // signature: the *store* refused the frame of a POST /{topic} or
+                // POST /import (unusable context, xs.context outside the zero context,
+                // NUL in topic, undecodable frame) and the route answered 500
+                let sig = "http-500-when-store-refuses-frame";
+                if s == 500 && crate::runner::known().lists(sig) {
+                    self.known_hits.push(sig.to_string());
+                } else {
+                    return Err(Fail::new(
+                        Class::Http,
+                        format!("{what}: a client error was answered with status {s}, not 4xx"),
+                    ));
+                }
+            }
+        }
+        Ok(())
     }
 
     pub fn ex(&mut self) -> &mut Exec {
@@ -689,9 +972,32 @@ impl Interp {
             // the hash xs must report is computed here, independently
             spec.hash = Some(sha256_integrity(c));
         }
+        let via_http = self.use_http(Some(&spec.topic));
+        if via_http && spec.ttl.is_none() {
+            // the HTTP route turns an absent ttl parameter into `forever`
+            spec.ttl = Some(WTtl::Forever);
+        }
         let expect = self.model.append_expect(&spec);
         let is_nul = spec.topic.as_bytes().contains(&0);
-        let res = self.ex().append(&spec, content.as_deref());
+        let res = if via_http {
+            let sock = self.sock.clone().unwrap();
+            let how = crate::httpx::AppendHow {
+                chunked: content
+                    .as_ref()
+                    .filter(|c| c.len() % 2 == 1)
+                    .map(|c| (c.len() / 3).max(1)),
+                explicit_zero_ctx: spec.topic.len() % 2 == 1,
+            };
+            // an empty body means "no content" over HTTP
+            let body = content.as_deref().filter(|c| !c.is_empty());
+            if body.is_none() {
+                spec.hash = None;
+            }
+            let out = crate::httpx::append(&sock, &spec, body, &how);
+            self.http(out)?
+        } else {
+            self.ex().append(&spec, content.as_deref())
+        };
         self.checks += 1;
         match res {
             Ok(w) => {
@@ -755,6 +1061,7 @@ impl Interp {
                 if is_nul {
                     self.flags.nul_rejected += 1;
                 }
+                self.client_error_status("rejected append")?;
                 Ok(None)
             }
             Err(e) => Err(must::<()>("append", Err(e)).unwrap_err()),
@@ -764,7 +1071,33 @@ impl Interp {
     fn do_import(&mut self, spec: FrameSpec) -> Check {
         let is_nul = spec.topic.as_bytes().contains(&0);
         let id = spec.id.unwrap();
-        let res = self.ex().import(&spec);
+        let res = if self.use_http(None) {
+            let sock = self.sock.clone().unwrap();
+            let out = crate::httpx::import(&sock, &spec);
+            match self.http(out)? {
+                Ok(echo) => {
+                    // the route answers with the frame it stored
+                    let want = WFrame {
+                        id: id_str(id),
+                        ctx: id_str(spec.ctx),
+                        topic: spec.topic.clone(),
+                        hash: spec.hash.clone(),
+                        meta: spec.meta_printed(),
+                        ttl: spec.ttl.clone(),
+                    };
+                    if echo != want {
+                        return Err(Fail::new(
+                            Class::Http,
+                            format!("POST /import answered {echo:?} for the frame {want:?}"),
+                        ));
+                    }
+                    Ok(())
+                }
+                Err(e) => Err(e),
+            }
+        } else {
+            self.ex().import(&spec)
+        };
         self.checks += 1;
         match res {
             Ok(()) => {
@@ -804,6 +1137,7 @@ impl Interp {
                     ));
                 }
                 self.flags.nul_rejected += 1;
+                self.client_error_status("rejected import")?;
                 Ok(())
             }
             Err(e) => Err(must::<()>("import", Err(e)).unwrap_err()),
@@ -817,24 +1151,34 @@ impl Interp {
         last: Option<u128>,
         limit: Option<usize>,
     ) -> Result<Vec<WFrame>, Fail> {
+        let path = match path {
+            ReadPath::HttpNd | ReadPath::HttpSse if !self.use_http(None) => ReadPath::Sync,
+            p => p,
+        };
+        let ropts = ROpts {
+            follow: None,
+            tail: false,
+            last_id: last,
+            limit,
+            ctx,
+        };
         let res = match path {
             ReadPath::Sync => must("read_sync", self.ex().read_sync(last, limit, ctx))?,
-            ReadPath::Stream => must(
-                "read",
-                self.ex().read(&ROpts {
-                    follow: None,
-                    tail: false,
-                    last_id: last,
-                    limit,
-                    ctx,
-                }),
-            )?,
+            ReadPath::Stream => must("read", self.ex().read(&ropts))?,
+            ReadPath::HttpNd | ReadPath::HttpSse => {
+                let sock = self.sock.clone().unwrap();
+                let out = crate::httpx::read(&sock, &ropts, path == ReadPath::HttpSse);
+                let r = self.http(out)?;
+                must("GET /", r)?
+            }
         };
         let what = format!(
             "{}(ctx={}, last_id={}, limit={:?})",
             match path {
                 ReadPath::Sync => "read_sync",
                 ReadPath::Stream => "read",
+                ReadPath::HttpNd => "GET / (ndjson)",
+                ReadPath::HttpSse => "GET / (sse)",
             },
             ctx.map(id_str).unwrap_or("all".into()),
             last.map(id_str).unwrap_or("-".into()),
@@ -853,7 +1197,7 @@ impl Interp {
             self.flags.had_expiry = true;
             match path {
                 ReadPath::Sync => self.flags.expiry_seen_sync = true,
-                ReadPath::Stream => self.flags.expiry_seen_stream = true,
+                _ => self.flags.expiry_seen_stream = true,
             }
         }
         Ok(res)
@@ -989,6 +1333,8 @@ impl Interp {
         if self.reg_changed_since_reopen {
             self.flags.reg_then_reopen_with_change = true;
         }
+        self.sock = None;
+        self.start_api()?;
         self.start_follower()?;
         Ok(())
     }
@@ -1128,7 +1474,9 @@ impl Interp {
         for w in &all {
             groups.entry((w.ctx128(), w.topic.clone())).or_default().push(w);
         }
-        if !self.flags.had_import {
+        // (not claimed after a kill with eviction work still queued: the statement
+        // quantifies over histories, and queued collector work does not survive a kill)
+        if !self.flags.had_import && !self.flags.deferred_drain {
             for ((c, t), v) in &groups {
                 let newest = v.last().unwrap();
                 if let Some(WTtl::Head(n)) = newest.ttl {
@@ -1153,11 +1501,120 @@ impl Interp {
         Ok(())
     }
 
+    /// Send a request that must be refused: well-formed 4xx response, nothing
+    /// stored, server still serving.
+    fn bad_request(&mut self, b: &BadReq) -> Check {
+        use crate::http::{roundtrip, Body, Req};
+        let Some(sock) = self.sock.clone() else {
+            return Ok(());
+        };
+        let mut allow_404 = false;
+        let req = match b {
+            BadReq::BadId { delete, id } => {
+                Req::new(if *delete { "DELETE" } else { "GET" }, &format!("/{id}"))
+            }
+            BadReq::BadTtl { topic, ttl } => Req::new("POST", &format!("/{topic}?ttl={ttl}"))
+                .body(Body::Len(b"x".to_vec())),
+            BadReq::BadContext { topic, ctx } => {
+                Req::new("POST", &format!("/{topic}?context={ctx}")).body(Body::Len(b"x".to_vec()))
+            }
+            BadReq::BadMeta {
+                topic,
+                kind,
+                with_body,
+            } => {
+                let value: Vec<u8> = match kind {
+                    0 => b"@@not-base64@@".to_vec(),
+                    1 => b64(&[0xff, 0xfe, 0xfd]).into_bytes(),
+                    2 => b64(b"{not json").into_bytes(),
+                    _ => vec![0xff, 0xfe],
+                };
+                let r = Req::new("POST", &format!("/{topic}")).header("xs-meta", &value);
+                if *with_body {
+                    r.body(Body::Len(b"content".to_vec()))
+                } else {
+                    r.body(Body::Len(Vec::new()))
+                }
+            }
+            BadReq::BadReadQuery { q, sse } => {
+                let r = Req::new("GET", &format!("/?{q}"));
+                if *sse {
+                    r.header("Accept", b"text/event-stream")
+                } else {
+                    r
+                }
+            }
+            BadReq::BadHeadContext { topic, ctx } => {
+                Req::new("GET", &format!("/head/{topic}?context={ctx}"))
+            }
+            BadReq::BadCasHash { h } => Req::new("GET", &format!("/cas/{h}")),
+            BadReq::AbsentCas { seed } => {
+                allow_404 = true;
+                let h = sha256_integrity(&[*seed, 0x5a, 0xa5, *seed, 1, 2, 3, 4, 5, 6, 7, 8, 9]);
+                Req::new("GET", &format!("/cas/{h}"))
+            }
+            BadReq::EmptyCasPost => Req::new("POST", "/cas").body(Body::Len(Vec::new())),
+            BadReq::BadImport { body } => {
+                Req::new("POST", "/import").body(Body::Len(body.clone().into_bytes()))
+            }
+            BadReq::UnknownMethod { method, path } => {
+                allow_404 = true;
+                Req::new(method, path)
+            }
+        };
+        self.http_requests += 1;
+        self.checks += 1;
+        let is_head = req.method == "HEAD";
+        let resp = match roundtrip(&sock, &req, crate::httpx::T) {
+            Ok(r) => r,
+            Err(crate::http::HttpErr::Connect(e)) => return Err(infra(format!("connect: {e}"))),
+            Err(crate::http::HttpErr::Timeout) if is_head => return Ok(()),
+            Err(e) => {
+                return Err(Fail::new(
+                    Class::Http,
+                    format!(
+                        "{} {} ({b:?}) got no well-formed response: {e:?}",
+                        req.method, req.target
+                    ),
+                ))
+            }
+        };
+        let _ = allow_404;
+        if !(400..500).contains(&resp.status) {
+            return Err(Fail::new(
+                Class::Http,
+                format!(
+                    "{} {} ({b:?}) must be refused with a 4xx status but got {} {:?}",
+                    req.method,
+                    req.target,
+                    resp.status,
+                    resp.text().chars().take(120).collect::<String>()
+                ),
+            ));
+        }
+        // nothing may have been stored, and the server must still answer
+        self.stream_read(ReadPath::Sync, None, None, None)
+            .map_err(|mut f| {
+                f.class = Class::Http;
+                f.msg = format!("after refused request {b:?}: {}", f.msg);
+                f
+            })?;
+        match crate::httpx::version(&sock) {
+            crate::httpx::HOut::Ok(_) => Ok(()),
+            crate::httpx::HOut::Infra(e) => Err(infra(format!("connect: {e}"))),
+            other => Err(Fail::new(
+                Class::Http,
+                format!("after refused request {b:?} GET /version answered {other:?}"),
+            )),
+        }
+    }
+
     pub fn step(&mut self, op: &Op) -> Check {
         if std::env::var_os("XSV_TRACE").is_some() {
             eprintln!("-- op {}: model frames {:?}", op.kind(), self.model.frames.values().map(|f| (id_str(f.id), f.topic.clone(), f.presence)).collect::<Vec<_>>());
         }
         match op {
+            Op::Bad(b) => self.bad_request(b)?,
             Op::Append {
                 topic,
                 ctx,
@@ -1307,7 +1764,14 @@ impl Interp {
             Op::Remove(sel) => {
                 let id = self.resolve_id(sel);
                 let was = self.model.frames.get(&id).cloned();
-                must("remove", self.ex().remove(id))?;
+                if self.use_http(None) {
+                    let sock = self.sock.clone().unwrap();
+                    let out = crate::httpx::remove(&sock, id);
+                    let r = self.http(out)?;
+                    must("DELETE /<id>", r)?;
+                } else {
+                    must("remove", self.ex().remove(id))?;
+                }
                 self.checks += 1;
                 self.model.apply_remove(id);
                 if let Some(f) = was {
@@ -1364,7 +1828,14 @@ impl Interp {
             }
             Op::Get(sel) => {
                 let id = self.resolve_id(sel);
-                let got = must("get", self.ex().get(id))?;
+                let got = if self.use_http(None) {
+                    let sock = self.sock.clone().unwrap();
+                    let out = crate::httpx::get(&sock, id);
+                    let r = self.http(out)?;
+                    must("GET /<id>", r)?
+                } else {
+                    must("get", self.ex().get(id))?
+                };
                 self.model.check_get("get", id, got.as_ref())?;
                 self.checks += 1;
             }
@@ -1384,7 +1855,14 @@ impl Interp {
                         }
                     }
                 } else {
-                    let got = must("head", self.ex().head(topic, c))?;
+                    let got = if self.use_http(Some(topic)) {
+                        let sock = self.sock.clone().unwrap();
+                        let out = crate::httpx::head(&sock, topic, c, topic.len() % 2 == 0);
+                        let r = self.http(out)?;
+                        must("GET /head/<topic>", r)?
+                    } else {
+                        must("head", self.ex().head(topic, c))?
+                    };
                     self.model.check_head("head", topic, c, got.as_ref())?;
                 }
                 self.checks += 1;
@@ -1402,7 +1880,7 @@ impl Interp {
 
 /// Run one generated history. `Ok(info)` = every oracle held.
 pub fn run_history(case: &HistCase) -> Result<(CaseInfo, Flags), Fail> {
-    let mut it = Interp::start(case.layout, case.follower)?;
+    let mut it = Interp::start_with(case.layout, case.follower, case.access)?;
     must("clock", it.ex().clock(Some(0)))?;
     for _ in 0..case.n_ctx {
         it.step(&Op::Register { ttl: None })?;
@@ -1436,7 +1914,7 @@ pub fn run_history(case: &HistCase) -> Result<(CaseInfo, Flags), Fail> {
     }
     let kinds: Vec<&str> = case.ops.iter().map(|o| o.kind()).collect();
     let shape = hash64(
-        format!("{:?}|{}|{:?}", case.layout, case.n_ctx, kinds).as_bytes(),
+        format!("{:?}|{:?}|{}|{:?}", case.layout, case.access, case.n_ctx, kinds).as_bytes(),
     );
     let mut labels = Vec::new();
     let fl = &it.flags;
@@ -1463,7 +1941,7 @@ pub fn run_history(case: &HistCase) -> Result<(CaseInfo, Flags), Fail> {
         nontrivial: false,
         shape,
         labels,
-        known: Vec::new(),
+        known: it.known_hits.clone(),
         checks: it.checks,
     };
     let flags = it.flags.clone();
